@@ -256,8 +256,9 @@ def extract():
         for n in ast.walk(f):
             if isinstance(n, ast.Call) and isinstance(n.func, ast.Attribute) and n.func.attr in ('startswith', 'endswith') \
                     and n.args and isinstance(n.args[0], ast.Constant):
-                out.append((n.func.attr, n.args[0].value))
-        return llist(f'({lstr(a)}, {lstr(b)})' for a, b in out)
+                out.append((n.lineno, n.col_offset, n.func.attr, n.args[0].value))
+        out.sort()      # source order
+        return llist(f'({lstr(a)}, {lstr(b)})' for _l, _c, a, b in out)
     o.item('loadPrefixTests', 'List (List Nat × List Nat)', armor_like, '[]')
 
     def ts_formats():
